@@ -241,6 +241,16 @@ def main(argv):
         if crosscheck.get("exit") not in (0, None):
             errors.append(("tools/crosscheck.py", "assumed library contract refuted: " + "; ".join(crosscheck["disagreements"])[:1500]))
 
+    # the assumed library contracts sampled against the installed numpy / CasADi / networkx
+    libc = None
+    try:
+        p = subprocess.run([PY, os.path.join(HERE, "tools", "library_contracts.py")], capture_output=True, text=True, timeout=120, cwd=HERE)
+        libc = {"exit": p.returncode, "summary": (p.stdout.strip().splitlines() or [""])[0], "refuted": [l.strip() for l in p.stdout.splitlines() if "REFUTED" in l][:10]}
+        if p.returncode == 1:
+            errors.append(("tools/library_contracts.py", "assumed library contract refuted: " + "; ".join(libc["refuted"])[:1500]))
+    except subprocess.TimeoutExpired:
+        libc = {"exit": None, "summary": "timed out"}
+
     # conformance sampler of the assumed ghost view / spec transcription against the real code
     ghostc = None
     if prop in ("C01", "C02", "C10", "C14") and (tier == "thorough" or prop == "C01"):
@@ -349,6 +359,8 @@ def main(argv):
     }
     if crosscheck is not None:
         coverage["model_vs_real_crosscheck"] = crosscheck
+    if libc is not None:
+        coverage["library_contract_samples"] = libc
     if ghostc is not None:
         coverage["ghost_view_conformance_sampler"] = ghostc
     if selftest is not None:
